@@ -88,6 +88,11 @@ Step(m, e) ==
     [] e.k = "rel" ->
          IF e.f \notin m.held THEN Bad(m, "C13.releasedonce")
          ELSE [m EXCEPT !.held = @ \ {e.f}, !.released = @ \cup {e.f}]
+    \* decompressors of request bodies (Request.ReadEntity): any number, each released exactly once, none left at the end
+    [] e.k = "racq" ->
+         IF e.f \in m.held THEN Bad(m, "C13.exclusive") ELSE [m EXCEPT !.held = @ \cup {e.f}]
+    [] e.k = "rrel" ->
+         IF e.f \notin m.held THEN Bad(m, "C13.releasedonce") ELSE [m EXCEPT !.held = @ \ {e.f}]
     [] e.k = "use" -> Bad(m, "C13.useafterrelease")
     [] e.k = "end" ->
          \* e.f = 1: the panic escaped the entry point
